@@ -14,6 +14,8 @@ Oracle: the conjunction of the statement evaluated on all pairs with the Bondi r
         whole, residue graph of each molecule connected).
 """
 import itertools
+import os
+import shutil
 
 from mc import common
 from mc.common import Acc
@@ -240,10 +242,77 @@ def pair_cases():
                 yield e1, e2, relation, knowledge
 
 
+# ----------------------------------------------------------------------------- through bin/martinize2
+
+CLI_GAPS = [0.150, 0.165, 0.190, 0.230, 0.300, 0.125]        # nm; C-C threshold = fudge x 0.170: 0.136 (0.8) .. 0.255 (1.5)
+CLI_FUDGES = [None, 0.8, 1.0, 1.2, 1.5]
+
+
+def cli_case(item, acc):
+    """The program itself: a row of carbon atoms, one per residue of a residue type the force field does not know (only the
+    distance criterion applies), spacings on both sides of the thresholds of several fudge factors; the graph written right
+    after bond guessing (-write-graph) is read back with mc/readers.py and compared with the stated criterion."""
+    import tempfile
+    from mc import cli, readers
+    fudge, mode, layout = item
+    case = {'layer': 'cli', 'fudge': fudge, 'mode': mode, 'layout': layout}
+    gaps = CLI_GAPS if layout == 'forward' else list(reversed(CLI_GAPS))
+    xs = [0.0]
+    for gap in gaps:
+        xs.append(xs[-1] + gap)
+    lines = []
+    for idx, x in enumerate(xs, start=1):
+        lines.append('HETATM%5d  C1  LIG A%4d    %8.3f%8.3f%8.3f  1.00  0.00           C  ' % (idx, idx, x * 10, 0.0, 0.0))
+    base = tempfile.mkdtemp(prefix='verif_c10cli_', dir='/dev/shm' if os.path.isdir('/dev/shm') else None)
+    try:
+        with open(os.path.join(base, 'in.pdb'), 'w') as handle:
+            handle.write('\n'.join(lines) + '\nEND\n')
+        argv = ['-f', 'in.pdb', '-x', 'cg.pdb', '-o', 'topol.top', '-bonds-from', mode, '-write-graph', 'graph.pdb', '-maxwarn', '100']
+        if fudge is not None:
+            argv += ['-bonds-fudge', str(fudge)]
+        res = cli.run_inprocess(argv, base)
+        path = os.path.join(base, 'graph.pdb')
+        if not os.path.exists(path):
+            acc.case(outcome=('cli-nograph', res['exit']))
+            acc.violation('c10:cli-no-graph', 'martinize2 %r wrote no graph file (exit %r)\n%s' % (argv, res['exit'], res['stderr'][-400:]), case)
+            return
+        graph = readers.read_pdb(open(path).read())
+    finally:
+        shutil.rmtree(base, ignore_errors=True)
+    eff = 1.2 if fudge is None else fudge
+    want = set()
+    if mode in ('distance', 'both'):
+        for i, j in itertools.combinations(range(len(xs)), 2):
+            if abs(xs[i] - xs[j]) <= eff * 0.170 + 1e-12:
+                want.add(frozenset((i + 1, j + 1)))
+    serial_to_res = {int(a['serial']): int(a['resid']) for a in graph['atoms']}
+    got = set()
+    for fields in graph['conect']:
+        first = int(fields[0])
+        for other in fields[1:]:
+            if int(other) != first:
+                got.add(frozenset((serial_to_res[first], serial_to_res[int(other)])))
+    acc.case(nontrivial=fudge not in (None, 1.2), outcome=('cli', fudge, mode, len(got)))
+    if got != want:
+        acc.violation('c10:cli-bonds', 'martinize2 -bonds-from %s%s: bonds between residues %r; the criterion with fudge %s gives %r' % (
+            mode, '' if fudge is None else ' -bonds-fudge %s' % fudge, sorted(map(sorted, got)), eff, sorted(map(sorted, want))), case)
+
+
+def cli_items():
+    for fudge in CLI_FUDGES:
+        for mode in ('distance', 'both', 'name', 'none'):
+            for layout in ('forward', 'reversed'):
+                yield fudge, mode, layout
+
+
 def work(task):
     common.bind_repo()
     kind, items = task
     acc = Acc()
+    if kind == 'cli':
+        for item in items:
+            cli_case(item, acc)
+        return acc
     if kind == 'pairs':
         for e1, e2, relation, knowledge in items:
             for factor, fudge, mode, pre in itertools.product((0.5, 1 - EPS, 1 + EPS, 1.5), (0.8, 1.0, 1.2),
@@ -416,12 +485,18 @@ def run(ctx):
     for part in common.pmap(work, [('sequence', [item]) for item in sequence_items()], fresh=True):
         acc += part
     ctx.layer('call-sequences', acc)
+    acc = Acc()
+    for part in common.pmap(work, [('cli', chunk) for chunk in common.chunked(list(cli_items()), 3)]):
+        acc += part
+    ctx.layer('martinize2-bond-options', acc)
 
 
 def replay(case):
     common.bind_repo()
     acc = Acc()
-    if case['layer'] == 'grid':
+    if case['layer'] == 'cli':
+        cli_case((case['fudge'], case['mode'], case['layout']), acc)
+    elif case['layer'] == 'grid':
         grid_case((tuple(case['elements']), case['sides'][0], case['sides'][1], case['mode'], case['fudge'], case['split']), acc)
     elif case['layer'] == 'sequence':
         item = (tuple(case['variants']), tuple(case['knowledges']), case['factor'])
